@@ -2,12 +2,17 @@
 # seeded_all_scratch.sh : every seeded change against the check(s) expected to catch it, on ONE scratch worktree that is kept for the
 # whole batch (patch applied / reverted in place, so the scratch harness rebuilds incrementally); /repo stays free
 cd /verif
-W=/root/scratch/repo-seed
+# PART="i n": only the seeds whose position in the list is i modulo n (several parts can run side by side, each on its own worktree)
+set -- ${PART:-0 1}
+PI=$1; PN=$2
+W=/root/scratch/repo-seed$PI
 mkdir -p /root/scratch
 git -C /repo worktree add --detach $W HEAD -q || exit 2
 trap 'git -C /repo worktree remove --force $W; git -C /repo worktree prune' EXIT
+k=-1
 for d in seeded/*/; do
   s=$(basename $d)
+  k=$((k+1)); [ $((k % PN)) -eq $PI ] || continue
   cks=${s:0:3}; [ -f $d/checks.txt ] && cks=$(cat $d/checks.txt)
   git -C $W apply /verif/$d/patch.diff 2>/dev/null || { echo "$s patch does not apply"; git -C $W checkout -q -- .; continue; }
   for c in $cks; do
